@@ -55,6 +55,8 @@ def configs(tier):
         for m in range(0, k + 1):
             add(group='schedule', k=k, m=m, d=1, q=1, _cost=50 * (m + 1))
     add(group='schedule_defaults')
+    for k in ((1, 2) if tier == 'quick' else (1, 2, 3)):
+        add(group='given_storage', k=k, d=1, q=1, _cost=50)
     return cfgs
 
 
@@ -277,3 +279,30 @@ def _schedule_defaults(env, cfg, ctx):
         guarded(env, 'explain_one', ex.explain_one, sym_row(env, names, f"x{t}"), env.real(f"y{t}"), verbose=False)
     env.claim('no_model_evaluation_before_the_interval_elapsed', len(model.calls) == 0 and len(loss.calls) == 0)
     env.claim('initial_values_zero', all(v == 0.0 for v in ex.importance_values.values()) and set(ex.importance_values) == set(names))
+
+
+def _given_storage(env, cfg, ctx):
+    """an IntervalStorage handed to the constructor (empty, as usual) is THE window that is explained"""
+    from ixai.imputer import MarginalImputer
+    k, d, q = cfg['k'], cfg['d'], cfg['q']
+    names = names_for('str', d)
+    model, loss = UFModel(env, names), UFLoss(env)
+    given = IntervalStorage(size=k, store_targets=True)
+    ex = guarded(env, 'ctor', IntervalSage, model, names, loss, n_inner_samples=q, interval_length=1, storage_length=k + 2,
+                 storage=given)
+    env.claim('given_storage_is_used', ex._storage is given and ex._imputer.storage_object is given)
+    data = []
+    for t in range(k + 1):
+        x, y = sym_row(env, names, f"x{t}"), env.real(f"y{t}")
+        data.append((x, y))
+        model.calls.clear()
+        limp = LoggingImputer(ex._imputer) if not isinstance(ex._imputer, LoggingImputer) else ex._imputer
+        ex._imputer = limp
+        limp.calls.clear()
+        guarded(env, 'explain_one', ex.explain_one, x, y, verbose=False)
+        window = data[-k:]
+        env.claim('given_storage_holds_the_last_size_observations', len(given) == len(window) and
+                  all(a is b[0] for a, b in zip(given.get_data()[0], window)))
+        ref, expl = reference_values(env, names, window, model, loss, limp.calls, q, tag=f"_t{t + 1}")
+        if ref is not None:
+            check_values(env, names, ex.importance_values, ref, expl, tag=f"_t{t + 1}")
